@@ -13,7 +13,8 @@ type LockEv struct {
 	Ev   string // begin want got rel precommit committed abort
 	Txn  int
 	Inum uint64
-	G    int64 // goroutine id (only when wanted)
+	G    int64  // goroutine id (only when wanted)
+	What string // acc: the inode method entered
 }
 
 // LockMon observes lock events of all servers in this process (the hook is a
@@ -73,6 +74,17 @@ func (m *LockMon) hook(ev string, op *fstxn.FsTxn, inum uint64) {
 	if yield != nil {
 		yield(ev)
 	}
+}
+
+// Acc records an access to a cached inode (inode.VerifAccess) in the same sequence as the lock events.
+func (m *LockMon) Acc(inum uint64, what string) {
+	g := goid()
+	m.mu.Lock()
+	if m.rec {
+		m.seq++
+		m.evs = append(m.evs, LockEv{Seq: m.seq, Ev: "acc", Inum: inum, G: g, What: what})
+	}
+	m.mu.Unlock()
 }
 
 // Reset forgets all state (call when starting a fresh server after abandoning a wedged one).
